@@ -95,8 +95,8 @@ def jobs(tier):
         out += vv(L, "Bss", VV_QUICK, nm=2, ulist=2, ulab=2, n2_nm=0)
         for sk, a, o in (("BsAs", 2, 3), ("BAss", 1, 2)):
             pin = {"n%d_nm" % o: 0}
-            out += vv(L, sk, VV, **U, **pin, **{"n%d_aop" % a: [0, 1], "n%d_aggop" % a: 0})
-            out += vv(L, sk, VV, **U, **pin, **{"n%d_aop" % a: 2, "n%d_cvl" % a: [0, 1, 2]})
+            out += vv(L, sk, VV, ulist=3, ulab=2, **pin, **{"n%d_aop" % a: [0, 1], "n%d_aggop" % a: 0})
+            out += vv(L, sk, VV_QUICK, ulist=3, ulab=2, **pin, **{"n%d_aop" % a: 2, "n%d_cvl" % a: [0, 2]})
             out += vv(L, sk, VV_QUICK, ulist=2, ulab=2, **{"n%d_aop" % a: 0, "n%d_aggop" % a: 0})
         out += vv(L, "BAsAs", VV, nm=0, **U, **AGG(1), n3_aop=[0, 1], n3_aggop=0)
         out += vv(L, "ABss", VV, node=1, ulist=2, ulab=2, n0_aop=[0, 1, 2], n0_aggop=0, n0_cvl=0)
@@ -106,10 +106,11 @@ def jobs(tier):
         out += expand(L, "Bsn", n0_op=[0, 1, 2], nm=2, **U) + expand(L, "Bns", n0_op=[0, 1, 2], nm=2, **U)
         out += vv(L, "Bsv", VV, **U) + vv(L, "Bvs", VV, **U)
         for sk, f in (("BsFs", 2), ("BFss", 1)):
-            out += vv(L, sk, VV, ulist=3, ulab=2, **{"n%d_fn" % f: [0, 1], "n%d_fnalt" % f: 0})
-            out += vv(L, sk, VV, ulist=3, ulab=2, **{"n%d_fn" % f: 2, "n%d_fnalt" % f: 0, "n%d_dst" % f: [0, 1, 2]})
-        out += vv(L, "BBsss", VV_QUICK, ulist=2, ulab=2, n1_op=[0, 3, 4, 5], n1_card=[0, 1], n1_arith=0, n4_nm=0)
-        out += vv(L, "BsBss", VV_QUICK, ulist=2, ulab=2, n2_op=[0, 3, 4, 5], n2_card=[0, 1], n2_arith=0, n1_nm=0)
+            out += vv(L, sk, VV_QUICK, ulist=3, ulab=2, **{"n%d_fn" % f: [0, 1], "n%d_fnalt" % f: 0})
+            out += vv(L, sk, VV_QUICK, ulist=3, ulab=2, **{"n%d_fn" % f: 2, "n%d_fnalt" % f: 0, "n%d_dst" % f: [0, 1, 2]})
+        NEST = [(0, 0), (0, 1), (4, 0), (5, 0)]
+        out += vv(L, "BBsss", NEST, ulist=2, ulab=1, n1_op=[0, 4, 5], n1_card=0, n1_arith=0, n4_nm=0)
+        out += vv(L, "BsBss", NEST, ulist=2, ulab=1, n2_op=[0, 4, 5], n2_card=0, n2_arith=0, n1_nm=0)
         out += vv(L, "BAsv", VV_QUICK, ulist=2, ulab=2, **AGG(1)) + vv(L, "BvAs", VV_QUICK, ulist=2, ulab=2, **AGG(2))
         for sk, pins in (("BFAss", dict(n4_nm=0, n1_fn=[0, 2], n1_fnalt=0, n1_dst=0, **AGG(2))), ("BsFAs", dict(n1_nm=0, n2_fn=[0, 2], n2_fnalt=0, n2_dst=0, **AGG(3))),
                          ("BAsFs", dict(n2_nm=0, n3_fn=[0, 2], n3_fnalt=0, n3_dst=0, **AGG(1))), ("BFsAs", dict(n4_nm=0, n1_fn=[0, 2], n1_fnalt=0, n1_dst=0, **AGG(3)))):
